@@ -48,6 +48,7 @@ def run_stat(
 
     reads = {}
     gaf_file = GAF(gaf_path)
+    alignment_count = 0
     for alignment_count, mapping in enumerate(gaf_file.read_file(), 1):
         # hashed_readname = hash(mapping.query_name)
         # read_names.add(hashed_readname)
@@ -116,15 +117,18 @@ def run_stat(
 
     # avg_total_seq_identity /= len(reads)
     # avg_total_map_ratio /= len(reads)
-    avg_highest_seq_identity /= len(reads)
-    avg_highest_map_ratio /= len(reads)
+    # a file without any primary alignment (or without records) has no reads to average over
+    if len(reads) > 0:
+        avg_highest_seq_identity /= len(reads)
+        avg_highest_map_ratio /= len(reads)
     print()
     print("Total alignments:", alignment_count, file=output)
     print("\tPrimary:", total_primary, file=output)
     print("\tSecondary:", total_secondary, file=output)
     print("Reads with at least one alignment:", len(reads), file=output)
     print("Total aligned bases:", str(total_aligned_bases), file=output)
-    print("Average mapping quality:", round((total_mapq / alignment_count), 1), file=output)
+    avg_mapq = total_mapq / alignment_count if alignment_count > 0 else 0.0
+    print("Average mapping quality:", round(avg_mapq, 1), file=output)
     # print("Average total sequence identity:", round(avg_total_seq_identity, 2), file=output)
     print("Average highest sequence identity:", round(avg_highest_seq_identity, 3), file=output)
     # print("Average total map ratio:", round(avg_total_map_ratio,2), file=output)
